@@ -306,6 +306,30 @@ def run(ctx, pid="C02"):
             v, tl = sm.judge_numeric(ctx, ids_of, nrows)
             nviol += [(f"{t}", None, row, f"[{sname}] {why}") for t, row, why in v if "skip" not in why]
             ntally_all.update(tl)
+    # built-ins called with NAMED parameters (the Django backend accepts the handlers' parameter names): in declaration order and out of it, a named call denotes
+    # what the positional call denotes (a backend that refuses named parameters with a library exception is fine)
+    NAMED = [("contains(field=s1, substr='a')", "contains(s1, 'a')"), ("contains(substr='a', field=s1)", "contains(s1, 'a')"), ("startswith(substr='a', field=s1)", "startswith(s1, 'a')"),
+             ("endswith(substr='b', field=s1)", "endswith(s1, 'b')"), ("not endswith(field=s1, substr='b')", "not endswith(s1, 'b')"), ("contains(substr=s2, field=s1)", "contains(s1, s2)"),
+             ("indexof(first=s1, second='b') eq 1", "indexof(s1, 'b') eq 1"), ("indexof(second='b', first=s1) eq 1", "indexof(s1, 'b') eq 1"),
+             ("substring(fullstr=s1, index=1) eq 'b'", "substring(s1, 1) eq 'b'"), ("substring(index=1, fullstr=s1) eq 'b'", "substring(s1, 1) eq 'b'"),
+             ("substring(nchars=1, index=1, fullstr=s1) eq 'b'", "substring(s1, 1, 1) eq 'b'"), ("length(arg=s1) eq 2", "length(s1) eq 2"), ("tolower(field=s1) eq 'ab'", "tolower(s1) eq 'ab'"),
+             ("contains(substr='a', field=s1) or i1 eq 7", "contains(s1, 'a') or i1 eq 7"), ("startswith(substr=s1, field='abc')", "startswith('abc', s1)")]
+    load_rows(rows_sets[0])
+    named_tally = collections.Counter()
+    for sname, fn in styles:
+        for tn, tp in NAMED:
+            rn, rp = fn(tn), fn(tp)
+            ctx.evaluations += 1
+            if not rn.startswith("ids"):
+                named_tally["refused:" + " ".join(rn.split(" ")[:2])] += 1
+                if not (rn.startswith("lib ") or rn == "notimpl"):
+                    viol.append((tn, None, None, f"[{sname}] named-parameter call leaks {rn[:80]}"))
+                continue
+            if rn != rp:
+                viol.append((tn, None, None, f"[{sname}] the named-parameter call selects {rn[:60]} but the positional call {tp!r} selects {rp[:60]}"))
+            else:
+                named_tally["agree"] += 1
+    ctx.extra["named_parameter_calls"] = dict(named_tally)
     ctx.extra["judged_numeric"] = dict(ntally_all)
     ctx.note(f"numeric stream (floor / ceiling / round x 6 comparisons x 7 constants, with and without a NULL row, every entry style, Spec.NumFn): {dict(ntally_all)}")
     viol += nviol
